@@ -50,7 +50,10 @@ class Report:
 
 
 class Ctx:
-    """Lazily extracted facts per feature configuration."""
+    """Lazily extracted facts per feature configuration.
+
+    In the thorough tier the whole rule list is run once per feature configuration: `current` is the
+    configuration of the pass, `facts("default")` then means "the configuration of this pass"."""
 
     def __init__(self, repo, tier):
         self.repo = repo
@@ -58,8 +61,11 @@ class Ctx:
         self._facts = {}
         self.extract_s = 0.0
         self.src_hash = None
+        self.current = "default"
 
     def facts(self, config="default"):
+        if config == "default":
+            config = self.current
         if config not in self._facts:
             path, h, s = extract.ensure_facts(self.repo, config)
             self.extract_s += s
@@ -68,6 +74,9 @@ class Ctx:
         return self._facts[config]
 
     def configs(self):
+        return [self.current]
+
+    def all_configs(self):
         return ["default"] if self.tier == "quick" else ["default", "dates", "picture", "dates_picture"]
 
 
@@ -82,15 +91,33 @@ def run(prop, tier, rules, meta, repo="/repo"):
     seed = int(os.environ.get("VERIF_SEED", "0") or 0)
     rep = Report(prop, tier)
     ctx = Ctx(repo, tier)
-    for rule in rules:
-        try:
-            rule(ctx, rep)
-        except SystemExit:
-            raise
-        except Exception as ex:  # a crashing rule must not pass silently
-            tb = traceback.format_exc()
-            rep.violation(getattr(rule, "__name__", "rule"), "%s|internal-error" % getattr(rule, "__name__", "rule"), "-",
-                          "rule crashed: %s\n%s" % (ex, tb))
+    for cfg in ctx.all_configs():
+        ctx.current = cfg
+        before = len(rep.instances)
+        for rule in rules:
+            if cfg != "default" and getattr(rule, "__name__", "") in ("r_witness", "r_c11"):
+                continue
+            try:
+                rule(ctx, rep)
+            except SystemExit:
+                raise
+            except Exception as ex:  # a crashing rule must not pass silently
+                tb = traceback.format_exc()
+                rep.violation(getattr(rule, "__name__", "rule"), "%s|internal-error" % getattr(rule, "__name__", "rule"), "-",
+                              "rule crashed: %s\n%s" % (ex, tb))
+        if cfg != "default":
+            # the same obligation in another feature configuration: keep violations whose key is new,
+            # count the rest as configuration-specific evidence
+            seen = {i["key"] for i in rep.instances[:before]}
+            kept = []
+            for inst in rep.instances[before:]:
+                if inst["verdict"] == "violation" and inst["key"] in seen:
+                    continue
+                if inst["verdict"] == "holds":
+                    inst["key"] = inst["key"] + "@" + cfg if inst["key"] in seen else inst["key"]
+                kept.append(inst)
+            rep.instances[before:] = kept
+    ctx.current = "default"
     known = load_table("known_findings.json")
     audited = load_table("audited_safe.json")
     kf_by_key = {}
